@@ -8,7 +8,6 @@ import (
 	"encoding/json"
 	"fmt"
 	"os"
-	"strconv"
 	"testing"
 	"time"
 
@@ -16,15 +15,6 @@ import (
 	_ "github.com/jrhy/s3db/sqlite/sqlite-autoload-extension"
 	_ "github.com/mattn/go-sqlite3"
 )
-
-func envInt(name string, def int64) int64 {
-	if s := os.Getenv(name); s != "" {
-		if v, err := strconv.ParseInt(s, 10, 64); err == nil {
-			return v
-		}
-	}
-	return def
-}
 
 func RunSeed(prop string, base int64, idx int64) uint64 {
 	return uint64(base)*1000003 + uint64(idx)
